@@ -213,7 +213,7 @@ SelfSeedSound == haveT => \A p \in 1..written : p <= Len(target) => target[p] = 
 StableSeeds == ~mutated /\ \A s \in 1..Len(h.aliases) : ~h.aliases[s]
 ConsistentSeeds == \A s \in 1..Len(h.kinds) : h.kinds[s] \in {"consistent", "emptyindex"}
 Promised == /\ ~cancelled /\ storefail = 0 /\ h.missing = 0
-            /\ \/ h.act = "regen"
+            /\ \/ h.act = "regen" /\ \A s \in 1..Len(h.kinds) : h.kinds[s] # "deleted"      \* a seed file that is gone cannot be re-indexed
                \/ h.act = "skip" /\ StableSeeds
                \/ StableSeeds /\ ConsistentSeeds
 Success == (result # "none" /\ Promised) => result = "ok"
